@@ -50,16 +50,23 @@ ATTEST_GEN = [
 ]
 
 
+O4, B5 = ["o1", "o2", "o3", "o4"], ["b1", "b2", "b3", "b4", "b5"]
+REC_CONSTS = attest_consts(O4, B5, 4, 0, 0)
+RECORDER = specs.make_recorder(module="Attest", mcmodule="AttestMC", pkg="attest", name="attest4", consts=REC_CONSTS, overrides={"Stake": "StakeRec"},
+                               harness=attest_harness("eth", O4, B5, 4, {"o1": 40, "o2": 30, "o3": 20, "o4": 10}), reset_op=ATTEST_RESET,
+                               tiers=["quick", "thorough", "dev"], walks=6, walklen=70, procs=8)
+
+
 def attest(pid):
     def run(work, args):
         return graph_property(
             work, args, pid=pid, module="Attest", mcmodule="AttestMC", pkg="attest", formulas=ATTEST_FORMULAS[pid],
-            mc_cfgs=ATTEST_MC, gen_cfgs=ATTEST_GEN, reset_op=ATTEST_RESET,
+            mc_cfgs=ATTEST_MC, gen_cfgs=ATTEST_GEN, reset_op=ATTEST_RESET, recorder=RECORDER,
             level_note="", design_ref="5/C01-C02",
             assumptions=[
                 "end-block slashing of an oracle is applied at keeper level (SlashOracle+SetLastTotalPower) in this spec; its cause is EndBlock.tla's subject",
                 "MsgEditBridger is driven through the message server directly (its ValidateBasic cannot pass on this tree)",
-                "claims are MsgSendToFxClaim deposits of the FX bridge token; other claim types are covered by Outgoing/ClaimIdentity specs",
+                "variant A claims are MsgSendToFxClaim deposits of the FX bridge token; the last variant is a MsgBridgeCallClaim into a contract that counts its invocations and re-enters executeClaim for its own nonce; other claim types are covered by Outgoing/ClaimId specs",
                 "the abstraction function reads the crosschain store prefixes 0x12 0x13 0x14 0x17 0x23 0x24 0x38 0x39 0x54 raw",
             ])
     return run
